@@ -18,6 +18,8 @@ typedef unsigned long long ull;
 
 #ifdef POSIT_FAST_SPECIALIZATION
 static const char* PK = "positfast";
+#elif defined(POSIT_NATIVE_SQRT) && POSIT_NATIVE_SQRT
+static const char* PK = "positnative";   // the non-default build option: Newton iteration `fast_sqrt` instead of the double detour
 #else
 static const char* PK = "posit";
 #endif
@@ -137,7 +139,7 @@ struct IRun {
 	X(2,0) X(3,0) X(3,1) X(4,0) X(4,1) X(4,2) X(5,0) X(5,1) X(5,2) X(5,3) \
 	X(6,0) X(6,1) X(6,2) X(6,3) X(6,4) X(7,0) X(7,1) X(7,2) X(7,3) X(7,4) X(7,5) \
 	X(8,0) X(8,1) X(8,2) X(8,3) X(8,4) X(8,5) \
-	X(9,1) X(10,2) X(12,1) X(14,1) X(16,1) X(16,2) X(16,3) X(20,1) X(24,2) X(32,2) X(32,3)
+	X(9,1) X(10,0) X(10,2) X(12,0) X(12,1) X(14,0) X(14,1) X(16,0) X(16,1) X(16,2) X(16,3) X(20,1) X(24,2) X(32,2) X(32,3)
 #endif
 
 int main(int argc, char** argv) {
